@@ -4,7 +4,8 @@ import sys, json, glob
 fam, name = sys.argv[1], sys.argv[2]
 lo = int(sys.argv[3]) if len(sys.argv) > 3 else 0
 hi = int(sys.argv[4]) if len(sys.argv) > 4 else 10**9
-f = sorted(glob.glob('/verif/work/corpus/*/%s-*/trace.ndjson' % fam))[-1]
+import os
+f = sorted(glob.glob('/verif/work/corpus/*/%s-*/trace.ndjson' % fam), key=os.path.getmtime)[-1]
 d = f.rsplit('/', 1)[0]
 for l in open(d + '/scn.ndjson'):
     s = json.loads(l)
